@@ -16,16 +16,18 @@ int vm_parse_double(const char* t, uint64_t n, vr64* out){ (void)t; (void)n; *ou
 #define SL 3          /* max length of stored keys / values in the pre-state */
 #endif
 static char alpha(void){ uint8_t k = nondet_u8(); __CPROVER_assume(k < 9); const char A[9] = {'A', 'O', 'Z', '7', 'a', '-', '=', '\'', ' '}; return A[k]; }
-static char* sym_string(unsigned n, unsigned* len_out){          /* exactly sized, NUL terminated; length concrete, characters symbolic */
+static char* sym_string(unsigned n, unsigned* len_out, char first){   /* exactly sized, NUL terminated; length concrete, characters symbolic
+                                                                          (a non-zero `first` fixes the first character: the grid decides which keys match) */
   char* s = malloc(n + 1); __CPROVER_assume(s != 0);
-  for (unsigned i = 0; i < n; i++) s[i] = alpha();
+  for (unsigned i = 0; i < n; i++) s[i] = (i == 0 && first) ? first : alpha();
   s[n] = 0; if (len_out) *len_out = n; vr_register_string(s, n); return s;
 }
 static const unsigned PKL[3] = {PKLS}, PVL[3] = {PVLS};            /* lengths of the pre-state keys / values */
 /* comparisons use the concrete lengths: a loop that may run past a terminator would read out of bounds symbolically */
 static int streqn(const char* a, unsigned la, const char* b, unsigned lb){ if (la != lb) return 0; for (unsigned i = 0; i < la; i++) if (a[i] != b[i]) return 0; return a[la] == 0 && b[lb] == 0; }
-static int prefix(const char* p, unsigned n, const char* k){ for (unsigned i = 0; i < n; i++) { if (k[i] != p[i]) return 0; } return 1; }   /* p has no NUL before n, so a shorter k differs at its terminator */
-static int reserved(const char* k){ return prefix("BITPIX", 6, k) || prefix("SIMPLE", 6, k) || prefix("TYPE", 4, k) || prefix("ORDER", 5, k) || prefix("NAXIS", 5, k) || prefix("PERIOD", 6, k) || prefix("EXTEND", 6, k) || prefix("COMMENT", 7, k); }
+/* strncmp(prefix, key, n) == 0, written with the concrete key length: a key shorter than the prefix differs at its terminator */
+static int prefix(const char* p, unsigned n, const char* k, unsigned kl){ if (kl < n) return 0; for (unsigned i = 0; i < n; i++) { if (k[i] != p[i]) return 0; } return 1; }
+static int reserved(const char* k, unsigned kl){ return prefix("BITPIX", 6, k, kl) || prefix("SIMPLE", 6, k, kl) || prefix("TYPE", 4, k, kl) || prefix("ORDER", 5, k, kl) || prefix("NAXIS", 5, k, kl) || prefix("PERIOD", 6, k, kl) || prefix("EXTEND", 6, k, kl) || prefix("COMMENT", 7, k, kl); }
 char g_key[KL + 1], g_val[VL + 1];
 
 void harness(void){
@@ -34,21 +36,34 @@ void harness(void){
   t.naux = NAUX;
   if (NAUX) { t.aux = malloc(NAUX * sizeof(char**)); __CPROVER_assume(t.aux != 0); vm_adopt(t.aux, NAUX * sizeof(char**)); }
   for (unsigned i = 0; i < NAUX; i++) {
-    unsigned kl, vl; okey[i] = sym_string(PKL[i], &kl); oval[i] = sym_string(PVL[i], &vl); vm_adopt(okey[i], kl + 1); vm_adopt(oval[i], vl + 1);
+    unsigned kl, vl; okey[i] = sym_string(PKL[i], &kl, (char)('K' + i)); oval[i] = sym_string(PVL[i], &vl, 0); vm_adopt(okey[i], kl + 1); vm_adopt(oval[i], vl + 1);
     oent[i] = malloc(2 * sizeof(char*)); __CPROVER_assume(oent[i] != 0); vm_adopt(oent[i], 2 * sizeof(char*)); oent[i][0] = okey[i]; oent[i][1] = oval[i]; t.aux[i] = oent[i];
   }
   int live0 = vm_live_blocks();
   /* the operation's key */
-  const unsigned kl = KL;                                    /* lengths are concrete per instance (the grid enumerates them), characters symbolic */
-#ifdef HIT
-  /* the operation's key is (character for character) the key of entry 0: the lookup is decided by symex */
-  for (unsigned i = 0; i < KL; i++) g_key[i] = okey[0][i]; g_key[kl] = 0; vr_register_string(g_key, kl);
+  /* the operation's key.  MATCH=i: the very key of entry i (the lookup is decided by symex); otherwise a fresh key whose
+   * first character FIRST differs from every stored key's first character, the remaining characters symbolic; RESERVED=k
+   * prepends the k-th reserved prefix */
+#if defined(MATCH)
+  char* const opkey = okey[MATCH]; const unsigned kl = PKL[MATCH];
 #else
-  for (unsigned i = 0; i < KL; i++) g_key[i] = alpha(); g_key[kl] = 0; vr_register_string(g_key, kl);
+  char* const opkey = g_key; const unsigned kl = KL;
+  { unsigned i = 0;
+#ifdef RESERVED
+    static const char* const RP[8] = {"BITPIX", "SIMPLE", "TYPE", "ORDER", "NAXIS", "PERIOD", "EXTEND", "COMMENT"};
+    for (; RP[RESERVED][i] && i < KL; i++) g_key[i] = RP[RESERVED][i];
+#else
+    if (KL > 0) g_key[i++] = FIRST;
 #endif
-  int present = -1; for (int i = NAUX - 1; i >= 0; i--) if (streqn(okey[i], PKL[i], g_key, kl)) present = i;      /* first match */
+    for (; i < KL; i++) g_key[i] = alpha(); g_key[kl] = 0; vr_register_string(g_key, kl); }
+#endif
+#if defined(MATCH)
+  const int present = MATCH;
+#else
+  const int present = -1;
+#endif
 #if defined(OP_GET)
-  char* v = ir_w_get_aux_value((char*)&t, g_key);
+  char* v = ir_w_get_aux_value((char*)&t, opkey);
   assert(!exc_pending);
   assert(present < 0 ? v == 0 : v == oval[present]);           /* value of the first matching key, absence reported as NULL */
   assert(vm_live_blocks() == live0 && t.naux == NAUX);
@@ -56,7 +71,7 @@ void harness(void){
 #ifdef OP_WRITE_STR
   const unsigned vl = VL;
   for (unsigned i = 0; i < VL; i++) g_val[i] = alpha(); g_val[vl] = 0; vr_register_string(g_val, vl);
-  uint32_t r = ir_w_write_key_str((char*)&t, g_key, g_val);
+  uint32_t r = ir_w_write_key_str((char*)&t, opkey, g_val);
 #else
   /* the written integer: any value with DIGITS decimal digits, either sign (the grid enumerates DIGITS 1..10) */
   extern int vm_int_digits; vm_int_digits = DIGITS;
@@ -68,19 +83,19 @@ void harness(void){
 #else
   __CPROVER_assume(iv >= 0);
 #endif
-  uint32_t r = ir_w_write_key_int((char*)&t, g_key, (uint32_t)iv);
+  uint32_t r = ir_w_write_key_int((char*)&t, opkey, (uint32_t)iv);
   unsigned vl = 0;
 #endif
 #ifndef NOPOST
   /* classes that must be rejected */
   int has_lower = 0, has_eq = 0, badshort = 0;
-  for (unsigned i = 0; i < kl; i++) { char c = g_key[i]; if (c >= 'a' && c <= 'z') has_lower = 1; if (c == '=') has_eq = 1; if (!((c >= 'A' && c <= 'Z') || (c >= '0' && c <= '9'))) badshort = 1; }
+  for (unsigned i = 0; i < kl; i++) { char c = opkey[i]; if (c >= 'a' && c <= 'z') has_lower = 1; if (c == '=') has_eq = 1; if (!((c >= 'A' && c <= 'Z') || (c >= '0' && c <= '9'))) badshort = 1; }
   unsigned maxdata = kl <= 8 ? 68 : 80 - (13 + kl);
-  int must_reject = reserved(g_key) || (kl <= 8 ? (has_lower || has_eq) : (has_lower || has_eq));
+  int must_reject = reserved(opkey, kl) || (kl <= 8 ? (has_lower || has_eq) : (has_lower || has_eq));
 #ifdef OP_WRITE_STR
   if (vl > maxdata) must_reject = 1;
 #endif
-  int must_accept = !reserved(g_key) && kl >= 1 && kl <= 8 && !badshort && vl <= maxdata;
+  int must_accept = !reserved(opkey, kl) && kl >= 1 && kl <= 8 && !badshort && vl <= maxdata;
   if (must_reject) assert(exc_pending);
   if (must_accept) assert(!exc_pending);
   if (exc_pending) {                                           /* rejected: every byte of the store unchanged */
@@ -99,7 +114,7 @@ void harness(void){
     assert(r != 0 && t.naux == NAUX + 1);
     for (unsigned i = 0; i < NAUX; i++) { assert(t.aux[i] == oent[i] && oent[i][0] == okey[i] && oent[i][1] == oval[i]); }
     char** ne = t.aux[NAUX];
-    assert(vm_block_size(ne[0]) == kl + 1); assert(streqn(ne[0], kl, g_key, kl));
+    assert(vm_block_size(ne[0]) == kl + 1); assert(streqn(ne[0], kl, opkey, kl));
 #ifdef OP_WRITE_STR
     assert(vm_block_size(ne[1]) == vl + 1); assert(streqn(ne[1], vl, g_val, vl));
 #endif
@@ -108,6 +123,19 @@ void harness(void){
   }
 #endif /* NOPOST */
 #ifdef OP_WRITE_INT
+  if (!exc_pending) {       /* the stored value block has exactly the size of the decimal representation (digits, sign, terminator);
+                               its characters are produced by the stream model and copied by the same code path as string values
+                               (checked character by character in the OP_WRITE_STR instances); reading the characters back here
+                               exceeded the solver's memory, so the digit string itself is covered by OP_WRITE_STR + OP_READ_INT */
+    const char* stored = present >= 0 ? oent[present][1] : t.aux[NAUX][1];
+#ifdef NEGATIVE
+    assert(vm_block_size((void*)stored) == DIGITS + 2);
+#else
+    assert(vm_block_size((void*)stored) == DIGITS + 1);
+#endif
+  }
+#endif
+#if defined(OP_WRITE_INT) && defined(READBACK)
   if (!exc_pending) {                                          /* typed read returns the value denoted by the stored string: exactly the integer written */
     { char* stored = present >= 0 ? oent[present][1] : t.aux[NAUX][1];           /* its length is known: DIGITS (+ sign) */
 #ifdef NEGATIVE
@@ -116,13 +144,28 @@ void harness(void){
       vr_register_string(stored, DIGITS);
 #endif
     }
-    int32_t back = 12345; uint32_t ok = ir_w_read_key_int((char*)&t, g_key, (char*)&back);
+    /* the lookup is made with the stored key itself, so that symex decides it (a character-wise equal copy would not be) */
+    int32_t back = 12345; uint32_t ok = ir_w_read_key_int((char*)&t, present >= 0 ? oent[present][0] : t.aux[NAUX][0], (char*)&back);
     assert(!exc_pending && ok && back == iv);
   }
 #endif
   exc_pending = 0;
+#elif defined(OP_REMOVE)
+  uint32_t r = ir_w_remove_key((char*)&t, opkey);
+  assert(!exc_pending);
+  if (present < 0) {                                           /* absent: reported, store unchanged */
+    assert(!r && t.naux == NAUX && vm_live_blocks() == live0);
+    for (unsigned i = 0; i < NAUX; i++) assert(t.aux[i] == oent[i] && oent[i][0] == okey[i] && oent[i][1] == oval[i]);
+  } else {                                                     /* exactly that entry goes, the others keep their order, its storage is released */
+    assert(r && t.naux == NAUX - 1);
+    for (int i = 0; i < (int)NAUX; i++) { if (i < present) assert(t.aux[i] == oent[i]); if (i > present) assert(t.aux[i - 1] == oent[i]);
+      if (i != present) assert(oent[i][0] == okey[i] && oent[i][1] == oval[i] && vm_is_live(okey[i]) && vm_is_live(oval[i]) && vm_is_live(oent[i])); }
+    assert(!vm_is_live(okey[present]) && !vm_is_live(oval[present]) && !vm_is_live(oent[present]));
+    assert(vm_block_size(t.aux) == (NAUX - 1) * sizeof(char**));
+    assert(vm_live_blocks() == live0 - 3);                     /* key, value, entry released; array replaced; temporary released */
+  }
 #elif defined(OP_READ_INT)
-  int32_t out = 777; uint32_t ok = ir_w_read_key_int((char*)&t, g_key, (char*)&out);
+  int32_t out = 777; uint32_t ok = ir_w_read_key_int((char*)&t, opkey, (char*)&out);
   assert(!exc_pending && vm_live_blocks() == live0);
   if (present < 0) assert(!ok);
   else { /* a stored string of decimal digits (optionally signed) denotes that integer */
